@@ -468,7 +468,7 @@ pub fn cmd_check(prop: Prop, tier: &str) -> i32 {
     let runs = if thorough {
         envn("SMTSIM_THOROUGH_RUNS", 4_000_000)
     } else {
-        envn("SMTSIM_QUICK_RUNS", 100_000)
+        envn("SMTSIM_QUICK_RUNS", 60_000)
     };
     let me = std::env::current_exe().expect("exe");
     let mut bins = vec![("release".to_string(), me.clone())];
